@@ -243,6 +243,19 @@ theorem rot_harmonic (c s n a θ : ℝ) :
       = c * Real.cos (n * (θ - a)) + s * Real.sin (n * (θ - a)) := by
   rw [mul_sub, Real.cos_sub, Real.sin_sub]; ring
 
+/-- closes an identity between polynomial expressions in `cos`/`sin` of angles that agree up to ring normalisation and
+sign (`cos(−x) = cos x`, `sin(−x) = −sin x`): on the pinned tree it is `rfl`/`ring1`; after a re-spelling of the angle in
+the source (`1*angle`, the positive angle with the signs moved to the coefficients, …) the arguments are normalised
+first.  It does not depend on the names of the locals of the source. -/
+macro "qsc_trig" : tactic =>
+  `(tactic| first
+      | rfl
+      | ring1
+      | ((try ring_nf) <;> (try simp only [Real.cos_neg, Real.sin_neg]) <;> (try ring1)))
+
+set_option linter.unnecessarySeqFocus false
+set_option linter.unusedSimpArgs false
+
 open Gen.R2 in
 /-- helicity 0 at order 2: the untwisted coefficients are the twisted ones -/
 theorem untwist_h0_2 {K : Type} [Field K] (o : Ops K) (i : Gen.R2.In K) :
@@ -255,6 +268,29 @@ open Gen.R2 in
 /-- the `m = 0` coefficients are never rotated -/
 theorem untwist_20 {K : Type} [Field K] (o : Ops K) (i : Gen.R2.In K) :
     X20_untwisted o i = i.X20 ∧ Y20_untwisted o i = i.Y20 ∧ Z20_untwisted o i = Z20 o i := ⟨rfl, rfl, rfl⟩
+
+open Gen.R2 in
+/-- helicity ≠ 0 at order 2, closed form: with `a = −helicity·nfp·varphi` each untwisted pair is the twisted one rotated
+by `2a` (whatever the spelling of the rotation in the source, up to ring normalisation and the parities of cos, sin) -/
+theorem untwist_hN_closed_2 (o : Ops ℝ) (i : Gen.R2.In ℝ) (hcos : ∀ x, o.cos x = Real.cos x)
+    (hsin : ∀ x, o.sin x = Real.sin x) :
+    let a := -i.helicity * i.nfp * i.varphi
+    X2s_untwisted_hN o i = X2s o i * Real.cos (2 * a) + X2c o i * Real.sin (2 * a) ∧
+    X2c_untwisted_hN o i = X2s o i * -Real.sin (2 * a) + X2c o i * Real.cos (2 * a) ∧
+    Y2s_untwisted_hN o i = Y2s o i * Real.cos (2 * a) + Y2c o i * Real.sin (2 * a) ∧
+    Y2c_untwisted_hN o i = Y2s o i * -Real.sin (2 * a) + Y2c o i * Real.cos (2 * a) ∧
+    Z2s_untwisted_hN o i = Z2s o i * Real.cos (2 * a) + Z2c o i * Real.sin (2 * a) ∧
+    Z2c_untwisted_hN o i = Z2s o i * -Real.sin (2 * a) + Z2c o i * Real.cos (2 * a) := by
+  intro a
+  simp only [a, X2c_untwisted_hN, X2s_untwisted_hN, Y2c_untwisted_hN, Y2s_untwisted_hN, Z2c_untwisted_hN, Z2s_untwisted_hN,
+    qsc_local, hcos, hsin, Nat.cast_ofNat, Nat.cast_one]
+  generalize X2s o i = xs
+  generalize X2c o i = xc
+  generalize Y2s o i = ys
+  generalize Y2c o i = yc
+  generalize Z2s o i = zs
+  generalize Z2c o i = zc
+  refine ⟨?_, ?_, ?_, ?_, ?_, ?_⟩ <;> qsc_trig
 
 open Gen.R2 in
 /-- helicity ≠ 0 at order 2: with `a = −helicity·nfp·varphi`, the untwisted coefficients describe the **same**
@@ -271,8 +307,8 @@ theorem untwist_same_surface_2 (o : Ops ℝ) (i : Gen.R2.In ℝ) (hcos : ∀ x, 
     Z2c_untwisted_hN o i * Real.cos (2 * θ) + Z2s_untwisted_hN o i * Real.sin (2 * θ)
         = Z2c o i * Real.cos (2 * (θ - a)) + Z2s o i * Real.sin (2 * (θ - a)) := by
   intro a
-  simp only [X2c_untwisted_hN, X2s_untwisted_hN, Y2c_untwisted_hN, Y2s_untwisted_hN, Z2c_untwisted_hN, Z2s_untwisted_hN,
-    hcos, hsin, Nat.cast_ofNat]
+  obtain ⟨h1, h2, h3, h4, h5, h6⟩ := untwist_hN_closed_2 o i hcos hsin
+  rw [h1, h2, h3, h4, h5, h6]
   exact ⟨rot_harmonic _ _ 2 a θ, rot_harmonic _ _ 2 a θ, rot_harmonic _ _ 2 a θ⟩
 
 open Gen.R2 in
@@ -282,8 +318,8 @@ theorem untwist_invariants_2 (o : Ops ℝ) (i : Gen.R2.In ℝ) (hcos : ∀ x, o.
     X2s_untwisted_hN o i ^ 2 + X2c_untwisted_hN o i ^ 2 = X2s o i ^ 2 + X2c o i ^ 2 ∧
     Y2s_untwisted_hN o i ^ 2 + Y2c_untwisted_hN o i ^ 2 = Y2s o i ^ 2 + Y2c o i ^ 2 ∧
     Z2s_untwisted_hN o i ^ 2 + Z2c_untwisted_hN o i ^ 2 = Z2s o i ^ 2 + Z2c o i ^ 2 := by
-  simp only [X2c_untwisted_hN, X2s_untwisted_hN, Y2c_untwisted_hN, Y2s_untwisted_hN, Z2c_untwisted_hN, Z2s_untwisted_hN,
-    hcos, hsin, Nat.cast_ofNat]
+  obtain ⟨h1, h2, h3, h4, h5, h6⟩ := untwist_hN_closed_2 o i hcos hsin
+  rw [h1, h2, h3, h4, h5, h6]
   have h := Real.sin_sq_add_cos_sq (2 * (-i.helicity * i.nfp * i.varphi))
   generalize Real.sin (2 * (-i.helicity * i.nfp * i.varphi)) = s at *
   generalize Real.cos (2 * (-i.helicity * i.nfp * i.varphi)) = c at *
@@ -330,13 +366,16 @@ theorem untwist_same_surface_3 (o : Ops ℝ) (i : Gen.R3.In ℝ) (hcos : ∀ x, 
         = Z3c1 o i * Real.cos (θ - a) + Z3s1 o i * Real.sin (θ - a)
           + Z3c3 o i * Real.cos (3 * (θ - a)) + Z3s3 o i * Real.sin (3 * (θ - a)) := by
   intro a
-  have r1 := fun c s : ℝ => rot_harmonic c s 1 a θ
-  simp only [one_mul] at r1
-  simp only [X3c1_untwisted_hN, X3s1_untwisted_hN, X3c3_untwisted_hN, X3s3_untwisted_hN,
+  simp only [a, X3c1_untwisted_hN, X3s1_untwisted_hN, X3c3_untwisted_hN, X3s3_untwisted_hN,
     Y3c1_untwisted_hN, Y3s1_untwisted_hN, Y3c3_untwisted_hN, Y3s3_untwisted_hN,
     Z3c1_untwisted_hN, Z3s1_untwisted_hN, Z3c3_untwisted_hN, Z3s3_untwisted_hN,
-    X3c3, X3s3, Y3c3, Y3s3, Z3c1, Z3s1, Z3c3, Z3s3, hcos, hsin, Nat.cast_ofNat, Nat.cast_zero, zero_mul, add_zero]
-  exact ⟨r1 _ _, r1 _ _, trivial⟩
+    X3c3, X3s3, Y3c3, Y3s3, Z3c1, Z3s1, Z3c3, Z3s3, qsc_local, hcos, hsin, Nat.cast_ofNat, Nat.cast_zero, Nat.cast_one,
+    mul_sub, Real.cos_sub, Real.sin_sub]
+  generalize X3c1 o i = xc
+  generalize X3s1 o i = xs
+  generalize Y3c1 o i = yc
+  generalize Y3s1 o i = ys
+  refine ⟨?_, ?_, ?_⟩ <;> qsc_trig
 
 end untwist
 
